@@ -39,10 +39,11 @@ if meta["confirmed"]:
     try:
         assert sh("git -C /repo apply %s/patch.diff" % src).returncode == 0
         for p in [pid] + extra:
+            import time; t0 = time.time()
             r = sh("timeout 1800 ./check %s --tier quick" % p, cwd="/verif", env=dict(os.environ, VERIF_EVIDENCE_DIR="/verif/build/seed-evidence"))
             lines = [l for l in r.stdout.split("\n") if l.strip()]
             results[p] = {"exit": r.returncode, "verdict": next((l for l in lines if l.startswith("VIOLATION")), lines[-1] if lines else ""),
-                          "first_lines": lines[:4]}
+                          "first_lines": lines[:4], "wall_s": round(time.time() - t0, 1)}
     finally:
         sh("git -C /repo checkout -- .")
 meta["checks_with_change_applied"] = results
